@@ -5,6 +5,32 @@ from ..contractfile import ContractFile
 from .. import replay as RP
 from . import transforms, tables
 
+REPLAY_INSIDE = r'''
+/* On the real library: for one rule of every family, with and without a transform, the predicate accepts the grid's own points and a point well inside, and rejects a point below the lower bound. */
+int main_replay(){
+  using namespace TasGrid;
+  int bad = 0;
+  for (auto rule : {rule_clenshawcurtis, rule_gausslegendre, rule_gausslaguerre, rule_gausslaguerreodd, rule_gausshermite, rule_gausshermiteodd, rule_gaussjacobi}) for (int tr = 0; tr < 2; tr++) {
+    TasmanianSparseGrid g = makeGlobalGrid(2, 0, 2, type_level, rule, std::vector<int>(), 0.5, 0.5);
+    bool lag = (rule == rule_gausslaguerre || rule == rule_gausslaguerreodd), her = (rule == rule_gausshermite || rule == rule_gausshermiteodd);
+    if (tr) g.setDomainTransform({2.0, 3.0}, {her || lag ? 0.5 : 4.0, her || lag ? 2.0 : 7.0});
+    auto inside = g.getDomainInside();
+    std::vector<double> p = g.getPoints();
+    for (int i = 0; i < g.getNumPoints(); i++) if (!inside(std::vector<double>{p[2*i], p[2*i+1]})) { if (bad < 5) std::printf("rule %d transform %d: the grid point (%g, %g) is rejected\n", (int) rule, tr, p[2*i], p[2*i+1]); bad++; }
+    double low = tr ? 2.0 : (lag ? 0.0 : -1.0);
+    if (!her && inside(std::vector<double>{low - 0.25, tr ? 3.5 : 0.5})) { std::printf("rule %d transform %d: a point below the lower bound is accepted\n", (int) rule, tr); bad++; }
+    if (lag && !inside(std::vector<double>{low + 1000.0, (tr ? 3.0 : 0.0) + 50.0})) { std::printf("rule %d transform %d: a large point of the half line is rejected\n", (int) rule, tr); bad++; }
+  }
+  __CPROVER_assert(bad == 0, "C10 getDomainInside() accepts the points of the transformed domain and rejects points beyond its bounds");
+  return 0;
+}
+'''
+def replay_inside(prop):
+    def rp(job, ob, vals, wd):
+        hdr = "Replay through the public API of the real library.\nproperty %s job %s\nobligation %s: %s\nat %s" % (prop, job.name, ob["name"], ob["description"], ob["location"])
+        return RP.write_and_run(prop, job.name + "." + ob["name"], hdr, ['"TasmanianSparseGrid.hpp"', '<cmath>'], REPLAY_INSIDE, "  main_replay();", lib="sg", timeout=60)
+    return rp
+
 def jobs(tier, seed, prop):
     R = X.Rules()
     enums = tables.cut_enum("TypeOneDRule", R)[0]
@@ -45,4 +71,12 @@ def jobs(tier, seed, prop):
                        bounded="dimensions <= 2, outputs / points <= 2 quick, 3 thorough (full unwinding); canary cells behind the array detect out-of-range writes",
                        assumed=["R13: the product is an uninterpreted deterministic function"],
                        label="%s: chain-rule scaling touches each entry once with the rate of its own dimension" % fn))
+    if prop == "C10":
+        Rd = X.Rules()
+        dt, dinfo = transforms.emit_domain_inside(Rd)
+        out.append(Job("transforms.domain_inside", pre + dt + cf.text(("harness",), ["h_domain_inside"]), "h_domain_inside", unwind=4, timeout=300, backends=[["--sat-solver", "cadical"], []],
+                       functions=["%s:%d %s" % (f["file"], f["line"], f["name"]) for f in dinfo["functions"]], info=dinfo, replay=replay_inside(prop),
+                       bounded="dimensions <= 2 (full unwinding); any rule, any doubles",
+                       assumed=["a lambda that captures by copy sees the members as they are when getDomainInside() is called (R7b)"],
+                       label="getDomainInside(): the returned predicate, applied to any point, is the membership test of the family's domain"))
     return out
